@@ -226,9 +226,8 @@ void h_scale(void) {
     spec = dict(unit="K22c_spvecfp_scale", site="K22c_spvecfp_scale", lang="c", source=rel + " (SpVecFP::operator*(const P&))", entry="h_scale", rewrites=log, timeout=2400,
                 dropped=["class wrapper; template header"], replay=_replay_scale,
                 assumptions=["std::vector of boost tuples bound to index / value arrays; P = long; the argument does not use primality",
-                             "machine arithmetic treated as mathematical for the one expression `(value * a) % p`: it is opaque in the loop proof (table PR), "
-                             "assumed not to overflow for |a|, p < 2^15 and to lie strictly between -p and p (C11 6.5.5); the loop-free lemma stating both "
-                             "did not finish in 300 s on the SAT back end (64-bit multiplier and divider) - the bounded variant and the E2 unit evaluate the real expression"],
+                             "the expression `(value * a) % p` is opaque in the loop proof (table PR with -p < PR[i] < p); that it does not overflow and has this range "
+                             "for |a|, p < 2^15 is discharged by the loop-free unit K22c_expr"],
                 trusted=["cbmc 6.11 + DFCC, SAT back end (bounded quantifier instantiation)"])
     if bounded:
         cap = "".join("  vp_in_ai[%d] = AI[%d]; vp_in_av[%d] = AV[%d];\n" % ((i,) * 4) for i in range(maxlen))
@@ -244,9 +243,36 @@ void h_scale(void) {
                     functions={"SpVecFP::operator*(scalar)": "proved(len<=%d)" % maxlen})
     return spec
 
+def _scale_expr_unit():
+    """K22c_expr: the two facts about `(value * a) % p` that K22c takes as the precondition on its table PR - loop-free, full domain.
+    (1) for 1 <= value < p < 2^15 and |a| < 2^15 the product does not overflow and lies in (-2^30, 2^30); (2) for every x in that range the
+    C remainder x % p does not overflow and lies strictly between -p and p.  Stated in two steps over a fresh x: as one expression the
+    64-bit multiplier feeding the divider did not finish in 300 s."""
+    rel = "include/parmcb/spvecfp.hpp"
+    text = r"""
+typedef long P;
+void h_expr(void) {
+  P value, a, p, x2;
+  __CPROVER_assume(p >= 2 && p < 32768 && a > -32768 && a < 32768 && value >= 1 && value < p);
+  P x = value * a;
+  __CPROVER_assert(x > -1073741824L && x < 1073741824L, "product of an entry and the scalar stays below 2^30");
+  __CPROVER_assume(x2 > -1073741824L && x2 < 1073741824L);
+  P r = x2 % p;
+  __CPROVER_assert(r > -p && r < p, "C remainder lies strictly between -p and p");
+  __CPROVER_assert(0, "VP_REACH end of harness");
+}
+"""
+    return dict(unit="K22c_expr", site="K22c_expr", lang="c", source=rel + " (the expression `(value * a) % p` of SpVecFP::operator*(const P&))", entry="h_expr",
+                text=text, mode="proof", timeout=600, rewrites=[], dropped=["everything but the expression, which K22c matches textually"],
+                bound="proved(full domain: 1 <= value < p < 2^15, |a| < 2^15): loop-free",
+                functions={"SpVecFP::operator*(scalar) / product expression": "proved(range, no overflow)"},
+                assumptions=["P = long; the lemma is about the text `(value * a) % p`, which is the only initialiser of v K22c's substitution accepts"],
+                trusted=["cbmc 6.11, SAT back end"])
+
 
 def units(tier):
     # K22c: registered with the product expression opaque (ghost table PR) - with the expression itself in the specification the
     # obligations did not finish on the SAT back end (2400 s cap, <= 3 entries) - see DESIGN 10.16
     return [X.guarded("K22b_spvecfp_plus", _unit, 3 if tier == "thorough" else 2),
-            X.guarded("K22c_spvecfp_scale", _scale_unit, 8 if tier == "thorough" else 4)]
+            X.guarded("K22c_spvecfp_scale", _scale_unit, 8 if tier == "thorough" else 4),
+            X.guarded("K22c_expr", _scale_expr_unit)]
